@@ -164,7 +164,9 @@ func New() *Sched {
 		Horizon:    20000,
 		seq:        map[uintptr]int{},
 		ChooseFree: true,
-		Watchdog:   20 * time.Second,
+		// a tool safeguard against a thread blocked outside the shims, never an oracle: long enough that a thread
+		// which is merely starved on a loaded machine (seen: 20 s at load 90 on 16 cores) does not trip it
+		Watchdog:   5 * time.Minute,
 		randState:  0x9E3779B97F4A7C15,
 	}
 }
